@@ -251,6 +251,14 @@ func (s *lockingStream) genReq(r *tr.Rng) *tr.Op {
 		}
 		creates = append(creates, fmt.Sprintf("%x|%x|%x", addr, v.pub64, v.comp))
 	}
+	// a candidate that waits: created and given a small stake in the same batch, so that it is pending with a positive power
+	// below every member's (export profiles: such a candidate must still be ranked after a restart from the exported state)
+	if s.exitBias && r.Chance(12) {
+		v := s.newVal(r)
+		creates = append(creates, fmt.Sprintf("%x|%x|%x", v.addr, v.pub64, v.comp))
+		locks = append(locks, fmt.Sprintf("%x|%x|%s", v.addr, s.tokens[0], e18(int64(1+r.Intn(3))).String()))
+		cls += "+waiting-candidate"
+	}
 	nl := r.Intn(4)
 	if r.Chance(3) {
 		nl = 6 // several validators in one batch (map order)
@@ -333,7 +341,7 @@ func (s *lockingStream) genReq(r *tr.Rng) *tr.Op {
 	}
 	// a validator leaves with everything it has locked while rewards are still unclaimed: the record stays (inactive, nothing
 	// locked) and so does the claim (C12: the accrued amounts are paid by a later claim, also after a restart from an export)
-	if r.Chance(pick(s.exitBias, 30, 5)) && len(s.vals) > 1 {
+	if r.Chance(pick(s.exitBias, 12, 5)) && len(s.vals) > 1 {
 		for _, v := range s.vals[1:] {
 			val, err := s.w.Lock.Validators.Get(s.w.Ctx, v.addr)
 			if err != nil || len(val.Locking) == 0 || !(val.Reward.IsPositive() || val.GasReward.IsPositive()) ||
